@@ -78,6 +78,16 @@ pub fn run() {
             .collect();
         let total: usize = plans.iter().map(|p| p.len()).sum();
         let (tx, rx) = platform::channel().unwrap();
+        // warm=<len>: the handle all senders are cloned from has already carried a message of that length (whatever a sender keeps
+        // from one send to the next is then shared by its later clones)
+        if let Some(w) = a.get("warm").map(|s| s.parse::<usize>().unwrap()) {
+            let t = tx.clone();
+            let h = std::thread::spawn(move || {
+                let _ = t.send(&tagged(999, 0, w), vec![], vec![]);
+            });
+            let _ = rx.recv();
+            let _ = h.join();
+        }
         delay_after_first(delay_us);
         // stamps come back over a second channel (works for threads and processes alike)
         let (stx, srx) = ipc_channel::ipc::channel::<Vec<(u64, u64, u64, u64, bool)>>().unwrap();
